@@ -87,6 +87,12 @@ func TestRaceC14(t *testing.T) {
 				t.FailNow()
 			}
 		}
+		if i%4 == 0 {
+			if msg := c14.SharedLibraryReal(int(i)); msg != "" {
+				fmt.Printf("REAL-LEG VIOLATION class=concurrent-differs\n%s\n", msg)
+				t.FailNow()
+			}
+		}
 		n++
 	}
 	if g := c14.ProcessGlobals() + c14.ScanSmallInts(); g != "" {
